@@ -79,6 +79,7 @@ func GenSlide(t *rapid.T, text TextFn) Slide {
 	if rapid.IntRange(0, 3).Draw(t, "hasSlideNum") == 0 {
 		s.SlideNum = text(t, "slidenum")
 	}
+	s.GroupFooters = rapid.IntRange(0, 2).Draw(t, "groupFooters") == 0
 	if len(s.Texts()) == 0 {
 		s.Body = []Para{{Text: text(t, "body")}}
 	}
@@ -116,7 +117,9 @@ func GenPhysical(t *rapid.T, d *Deck) {
 		s := &d.Slides[i]
 		p := fmt.Sprintf("ppt/slides/slide%d.xml", nums[i])
 		if style == "renamed" {
-			switch rapid.IntRange(0, 3).Draw(t, "partForm") {
+			switch rapid.IntRange(0, 4).Draw(t, "partForm") {
+			case 4:
+				p = fmt.Sprintf("ppt/deck/intro%d.sld", nums[i]) // not an .xml name: typed by its Override entry
 			case 0:
 				p = fmt.Sprintf("ppt/slides/sub/slide%d.xml", nums[i])
 			case 1:
